@@ -119,7 +119,11 @@ func genKV(r *vc.Rng) []string {
 		k := strconv.Itoa(1 + r.Intn(3))
 		switch x := r.Intn(12); {
 		case !live[id] || x == 0:
-			ops = append(ops, fmt.Sprintf("begin %d", id))
+			if r.Chance(1, 4) {
+				ops = append(ops, fmt.Sprintf("beginro %d", id))
+			} else {
+				ops = append(ops, fmt.Sprintf("begin %d", id))
+			}
 			live[id] = true
 		case x < 4:
 			ops = append(ops, fmt.Sprintf("get %d %s", id, k))
@@ -149,6 +153,7 @@ type txState struct {
 	writes   map[string]string
 	wrote    map[string]bool
 	began    int // step index
+	readonly bool
 }
 
 type world struct {
@@ -277,13 +282,14 @@ func (w *world) exec(op string) {
 	w.stepNo++
 	t := strings.Fields(op)
 	switch t[0] {
-	case "begin":
+	case "begin", "beginro":
 		if old := w.txs[t[1]]; old != nil {
 			old.txn.Discard(w.ctx)
 		}
-		txn, err := w.n.DB.NewTxn(w.ctx, false)
+		// `beginro`: a read-only transaction — the same snapshot reads, every write refused
+		txn, err := w.n.DB.NewTxn(w.ctx, t[0] == "beginro")
 		must(err)
-		ts := &txState{txn: txn, ctx: db.InitContext(w.ctx, txn), snapshot: map[string]string{}, writes: map[string]string{}, wrote: map[string]bool{}, began: w.stepNo}
+		ts := &txState{txn: txn, ctx: db.InitContext(w.ctx, txn), snapshot: map[string]string{}, writes: map[string]string{}, wrote: map[string]bool{}, began: w.stepNo, readonly: t[0] == "beginro"}
 		for k, v := range w.committed {
 			ts.snapshot[k] = v
 		}
@@ -351,6 +357,7 @@ func (w *world) exec(op string) {
 		label, age := t[2], t[3]
 		cur := w.expectedView(ts, label)
 		var err error
+		roWrite := ts != nil && ts.readonly
 		if cur == "-" {
 			if _, known := w.docIDs[label]; known && ts != nil && ts.snapshot[label] == "-" && false {
 				return
@@ -380,6 +387,13 @@ func (w *world) exec(op string) {
 				err = w.col.Update(ctx, d)
 			}
 		}
+		if roWrite {
+			if err == nil {
+				w.out.Oracle(w.out.Lines, fmt.Sprintf("[readonly-txn-wrote] case %d: %s succeeded inside a read-only transaction", w.caseID, op))
+			}
+			w.out.Count("set-refused-readonly")
+			return
+		}
 		if err != nil {
 			// e.g. the document was deleted before (deleted documents cannot be re-created): not part of the model
 			w.out.Count("set-error")
@@ -401,7 +415,7 @@ func (w *world) exec(op string) {
 		// The filter has to select by the transaction's own view (its snapshot plus its own writes).
 		id := t[1]
 		ctx, ts := w.cctx(id)
-		if ctx == nil {
+		if ctx == nil || (ts != nil && ts.readonly) {
 			return
 		}
 		if ts == nil {
@@ -557,7 +571,11 @@ func genAPI(r *vc.Rng, tier string) []string {
 		case x == 16:
 			ops = append(ops, fmt.Sprintf("setf 0 %d %d", 1+r.Intn(99), 1+r.Intn(99)))
 		case !live[id] || x == 0:
-			ops = append(ops, fmt.Sprintf("begin %d", id))
+			if r.Chance(1, 4) {
+				ops = append(ops, fmt.Sprintf("beginro %d", id))
+			} else {
+				ops = append(ops, fmt.Sprintf("begin %d", id))
+			}
 			live[id] = true
 		case x < 4:
 			ops = append(ops, fmt.Sprintf("get %d %d", id, d))
